@@ -18,6 +18,7 @@ import (
 	"fmt"
 	"os"
 
+	"verifharness/fsmodel"
 	"verifharness/nd"
 )
 
@@ -40,8 +41,29 @@ func main() {
 		fmt.Println("ERROR", err)
 		os.Exit(3)
 	}
+	// every case runs in its own empty directory (the engine's default file
+	// system is empty); SetFS materialises a model tree there
+	home, _ := os.Getwd()
+	nd.FSHook = func(fs interface{}) {
+		if m, ok := fs.(*fsmodel.FS); ok {
+			wd, _ := os.Getwd()
+			cwd, err := fsmodel.Materialise(m, wd)
+			if err != nil {
+				fmt.Println("ERROR materialise:", err)
+				os.Exit(3)
+			}
+			os.Chdir(cwd)
+		}
+	}
 	bad := 0
 	for n, c := range f.Cases {
+		os.Chdir(home)
+		dir, err := os.MkdirTemp("", "gosx-replay-")
+		if err != nil {
+			fmt.Println("ERROR", err)
+			os.Exit(3)
+		}
+		os.Chdir(dir)
 		fn := registry[c.Harness]
 		if fn == nil {
 			fmt.Println("ERROR no harness", c.Harness)
@@ -60,6 +82,8 @@ func main() {
 			fmt.Println("FAILURE", string(j))
 		}
 		fmt.Printf("END %d failures=%d\n", n, len(nd.Failures))
+		os.Chdir(home)
+		os.RemoveAll(dir)
 		if len(nd.Failures) > 0 {
 			bad++
 		}
